@@ -56,6 +56,19 @@ pub fn record(args: &[String]) {
             push_chain(&mut out, &format!("halfline/f64 warmup={w}"), delta, &raw, &OwnN::HalfLine, 1e-7, false, &mut stats, panic);
         }
     }
+    // RESUMED warm-ups: a later run() call whose warm-up reaches beyond the transitions made so far adapts again -- it has to
+    // continue the dual averaging (same shrinkage point, next iteration), whatever happened in between
+    {
+        let sd = splitmix(&mut s);
+        let id3 = vec![vec![1.0, 0.0, 0.0], vec![0.0, 1.0, 0.0], vec![0.0, 0.0, 1.0]];
+        let (raw, panic) = run_chain::<B64, f64, _>(GaussP { prec: id3.clone() }, vec![0.5, -0.3, 0.1], 0.6, sd, &[(if thorough { 500 } else { 60 }, 30), (20, if thorough { 1000 } else { 250 })], None);
+        push_chain(&mut out, "stdgauss3/f64 resumed warmup 30 -> more", 0.6, &raw, &OwnN::GaussP { prec: id3.clone() }, 1e-7, false, &mut stats, panic);
+        let narrow = vec![vec![1e4]];
+        let (raw, panic) = run_chain::<B32, f32, _>(GaussP { prec: narrow.clone() }, vec![0.004], 0.8, sd + 1, &[(100, 0), (3, 200)], None);
+        push_chain(&mut out, "narrow/f32 run(100,0) then run(3,200)", 0.8f32 as f64, &raw, &OwnN::GaussP { prec: narrow.clone() }, 5e-4, false, &mut stats, panic);
+        let (raw, panic) = run_chain::<B64, f64, _>(GaussP { prec: id3.clone() }, vec![0.5, -0.3, 0.1], 0.8, sd + 2, &[(1, 20), (1, 100), (4, 3), (2, 160)], None);
+        push_chain(&mut out, "stdgauss3/f64 warm-up in three instalments", 0.8, &raw, &OwnN::GaussP { prec: id3 }, 1e-7, false, &mut stats, panic);
+    }
     // long warm-ups on a bounded-support target (log-density NaN outside): the step size has to stay finite through
     // hundreds of transitions whose trajectories leave the support
     {
